@@ -54,7 +54,7 @@ Example read_queue_rows_sat :
   1 <= 2 /\ Forall (fun f => Forall (fun ch => ch <> []) f) files /\
   read_queue prepare d 2 false h_init files = Some [[[49];[50]]; [[51];[52]]; [[55];[56]]]%N.
 Proof.
-  cbv zeta. split; [lia|]. split; [repeat constructor; discriminate|]. vm_compute. reflexivity.
+  cbv zeta. split; [apply Nat.le_succ_diag_r|]. split; [repeat constructor; discriminate|]. vm_compute. reflexivity.
 Qed.
 
 (* "1,2\n" then BOM "7,8\n" in one partition: the old prepare left has_read / started set, the BOM of the second file
@@ -106,14 +106,13 @@ Qed.
 Definition grow_file : list N := [97;44;115;10;49;44;120;120;120;120;120;120;120;120;120;120;10]%N.
 
 Lemma sample_grows_old_refuted :
-  (exists s, read_csv_old 8 grow_file 2048 [grow_file] = ScanOk None s None /\ col_types s = [CBool; CBool]) /\
-  (exists s, read_csv 8 64 grow_file 2048 [grow_file]
-             = ScanOk None s (Some [[Some [49]; Some [120;120;120;120;120;120;120;120;120;120]]])%N /\
-             col_types s = [CInt; CUtf8] /\ has_header s = true) /\
-  (exists r, bind_sample_file 8 64 grow_file = Some r /\ bs_eof r = true /\ bs_len r = 32%N).
-Proof.
-  split; [|split]; eexists; repeat split; vm_compute; reflexivity.
-Qed.
+  read_csv_old 8 grow_file 2048 [grow_file]
+  = ScanOk None {| has_header := true; col_types := [CBool; CBool]; col_names := [Some [97]; Some [115]] |}%N None /\
+  read_csv 8 64 grow_file 2048 [grow_file]
+  = ScanOk (Some comma_dq) {| has_header := true; col_types := [CInt; CUtf8]; col_names := [Some [97]; Some [115]] |}%N
+      (Some [[Some [49]; Some [120;120;120;120;120;120;120;120;120;120]]])%N /\
+  option_map (fun r => (bs_eof r, bs_len r)) (bind_sample_file 8 64 grow_file) = Some (true, 32%N).
+Proof. split; [|split]; vm_compute; reflexivity. Qed.
 
 Print Assumptions read_queue_independent.
 Print Assumptions read_queue_rows.
